@@ -17,8 +17,10 @@ RULE = {
              "{2,5,0,4,-,LF,CR,SP} up to length 5 as the greeting / MAIL reply / final-dot reply; seeded random conversations (random codes, up to 5 lines, "
              "NUL/CR/8-bit text, >5000-byte texts, random cut, 1-8 recipients, random failing write). The real qmail-rspawn.c report() on every output over "
              "{r,h,s,K,Z,D,x,NUL} up to length 6 with exit 0 and, for length <=2, every exit status 0..255 x {no signal, 1, 9, 11, 127, core flag}; and on the "
-             "output of every smtp() run. Compared with the Lean models smtpRun/rreport (report bytes, bytes received by the server, exit status, relayed line); "
-             "oracle = kSound/rcptOrder/verdictOK(expect)/rspawnSound/rspawnClasses/noUpgrade on the implementation's output, reading the stream line by line; "
+             "output of every smtp() run. The real main() of qmail-remote from the DNS result on (control files, resolver, ipme, tcpto, connect scripted): every lookup "
+             "result x every list of up to 3 addresses (pref x is-me x tcpto-skip x connects/refused/timeout) x {good server, 554 greeting, silent server, failing write}. "
+             "Compared with the Lean models smtpRun/rreport/mainRun (report bytes, bytes received by the server, exit status, relayed line, tcpto_err calls); "
+             "oracle = kSoundQ/rcptOrder/verdictOKq(expect)/wireOrderQ/preOK/hostNamed/rspawnSound/rspawnClasses/noUpgrade on the implementation's output, reading the stream line by line; "
              "non-trivial = distinct input whose verdict is not K or which has a multi-line reply (S), distinct exit-0 output containing NUL (R)",
 }
 RULE["thorough"] = RULE["quick"].replace("n=2 (9 kinds), n=3 (6 kinds)", "n=2 (13 kinds), n=3 (9 kinds)").replace("up to length 5 as", "up to length 6 as").replace("up to length 6 with exit 0", "up to length 8 with exit 0")
@@ -26,8 +28,9 @@ ARGS = {"quick": "0 6000", "thorough": "1 200000"}
 ASSUME = [
     "the server is a byte stream plus the point where reads start failing and the write that fails; timeoutread/timeoutwrite return 0/-1 there (select/read/write themselves are not modelled)",
     "substdio buffering is transparent (several read chunkings are run); the position of buffer-full flushes inside the body is observed, not modelled",
-    "the connect/DNS/MX selection of main() before smtp() is not exercised: connected, or temp_noconn (Z)",
-    "report() is called with the complete output and the wait status of qmail-remote (spawn.c main loop not modelled); the bytes after the collected output are '!' NUL",
+    "main() is run from dns_mxip's return value on: control files (helohost me.example, no smtproutes), the resolver, ipme, tcpto's file and connect() are scripted answers; addrmangle is run on plain addresses only",
+    "when the failing write is the final QUIT the oracle accepts both the current behaviour (Z connection died) and the verdict already decided (notes/C09.md observation 1)",
+    "report() is called with the complete output and the wait status of qmail-remote (spawn.c main loop not modelled); in the harness the collected output is followed by '!' NUL and an ASan red zone, so any read past its end is visible",
     "unsigned long is 64 bits (the verdict comparisons are width-independent, Nq.Lemmas.RemoteSmtp)",
 ]
 
@@ -36,6 +39,8 @@ def case_line(d):
     """stdin case for the harness from the key=value fields of a DISAGREE/ORACLE line"""
     if d.get("kind") == "R":
         return "R %s %s" % (d.get("wstat", "0"), d.get("in", "-"))
+    if d.get("kind") == "M":
+        return "M %s %s %s %s" % (d.get("dnsret", "0"), d.get("cands", "."), d.get("in", "-"), d.get("wk", "0"))
     return "S %s %s %s %s %s %s %s %s %s %s" % (d.get("ip", "c0000219"), d.get("helo", "-"), d.get("sender", "-"), d.get("rcpts", "-"),
                                                 d.get("msg", "-"), d.get("msgerr", "0"), d.get("in", "-"), d.get("chunk", "0"),
                                                 d.get("wk", "0"), d.get("endmode", "0"))
@@ -52,7 +57,7 @@ def mutations(dis, seed, per=300):
         except ValueError:
             continue
         alphabet = b"rhsKZDx\0" if d.get("kind") == "R" else b"2504-\n\r x"
-        nr = 0 if d.get("rcpts", "-") == "." else d.get("rcpts", "-").count(",") + 1
+        nr = 1 if d.get("kind") == "M" else 0 if d.get("rcpts", "-") == "." else d.get("rcpts", "-").count(",") + 1
         for i in range(per):
             m = bytearray(b)
             for _ in range(rnd.randint(0, 3) if i else 0):
@@ -87,7 +92,7 @@ def main():
     if s.ok and c.driver_ok:
         try:
             h = s.cc(os.path.join(VERIF, HARNESS), os.path.join(s.dir, "h_c09"), link_like="qmail-remote",
-                     objs_exclude=["timeoutread.o", "timeoutwrite.o"])
+                     objs_exclude=["timeoutread.o", "timeoutwrite.o", "control.o", "dns.o", "ipme.o", "tcpto.o", "timeoutconn.o"])
             drv = driver_path("drv_c09")
             cmds = []
             corpus = os.path.join(VERIF, "corpus", PROP + ".txt")
